@@ -78,7 +78,9 @@ TOK = ["aa", "...", "a...", "...b", "a...b", "....", "..", "…", "Bb.", "wait..
        # appended later
        "{% t a...b %}", "{{ v...w }}", "{# c...d #}", "<!-- c...d -->", "[r...s]", "\\.\\.\\.",
        # tags whose body holds their own delimiter characters
-       "{% t \"5% a...b\" %}", "{{ v...w | f('}') }}", "{# c...d # e #}", "<!-- c...d - e -- f -->", "{% t a...b -%}"]
+       "{% t \"5% a...b\" %}", "{{ v...w | f('}') }}", "{# c...d # e #}", "<!-- c...d - e -- f -->", "{% t a...b -%}",
+       # tags that span a soft line break; a private-use character that a placeholder scheme might rely on
+       "{% t\na=\"x...y\" %}", "{{ v...w\n| f }}", "{# c...d\ne...f #}", "<!-- c...d\ne -->", "\ue000"]
 REPS = [TOK.index(t) for t in ("aa", "...", "a...b", "wait...", "`c...d`", "{% t a=\"...\" %}", "Bb.", "http://u.v/a...b")]
 
 
@@ -121,7 +123,8 @@ def make_oracle(tier):
                 d = readers.first_diff(ta, tb)
                 if d and d != "T.s":
                     sig = "doc:structure-changed"
-                elif reformat_text(b, width=width, semantic=sem, ellipses=True, **o) != b:
+                elif reformat_text(b, width=width, semantic=sem, ellipses=True, **o) != b and reformat_text(a, width=width, semantic=sem, ellipses=False, **o) == a:
+                    # (a document that is not stable even with the option off is C02's business, not the conversion's)
                     sig = "doc:not-idempotent"
             if sig and sig not in seen:
                 seen.add(sig)
@@ -138,16 +141,18 @@ def spaces(tier):
     kw = dict(full_upto=2, reps=REPS, max_special_seps=1)
     dots = TOK.index("...")
     class_rep = {TOK.index(t): dots for t in ("a...", "...b", "a...b", "....", "wait...", "\"q\"...", "('p')...", "...?", "...,", "-...", "1...2", "- ...")}
-    for t in ("{% t \"5% a...b\" %}", "{{ v...w | f('}') }}", "{# c...d # e #}", "<!-- c...d - e -- f -->", "{% t a...b -%}"):
+    for t in ("{% t \"5% a...b\" %}", "{{ v...w | f('}') }}", "{# c...d # e #}", "<!-- c...d - e -- f -->", "{% t a...b -%}",
+              "{% t\na=\"x...y\" %}", "{{ v...w\n| f }}", "{# c...d\ne...f #}", "<!-- c...d\ne -->"):
         class_rep[TOK.index(t)] = TOK.index("{% t a...b %}")
     para = ParaSpace("C09", "doc-para", TOK, 2 if q else 3, oracle, ctx, sepnames=("sp", "nl", "hb"), widths=(1, 30, 88),
                      lead="zz yy xx ww vv uu tt ", floors={"converted": 1000}, **kw)
     para0 = ParaSpace("C09", "doc-para-start", TOK, 2, oracle, docspace.contexts(0), sepnames=("sp", "nl"), widths=(1, 88), lead="",
                       floors={"converted": 100}, **kw)
+    one_line = lambda toks, seps: not any("\n" in t for t in toks)   # a heading / table row cannot hold a tag with a line break inside
     head = ParaSpace("C09", "doc-heading", TOK, 2, oracle, docspace.contexts(0), sepnames=("sp",), widths=(88,), lead="# zz ",
-                     modes=(False,), floors={"converted": 100}, **kw)
+                     modes=(False,), floors={"converted": 100}, valid=one_line, **kw)
     cell = ParaSpace("C09", "doc-cell", TOK, 2, oracle, docspace.contexts(0), sepnames=("sp",), widths=(88,), lead="| zz | ",
-                     trail=" |\n|---|---|", modes=(False,), floors={"converted": 100}, **kw)
+                     trail=" |\n|---|---|", modes=(False,), floors={"converted": 100}, valid=one_line, **kw)
     for sp in (para, para0, head, cell):
         sp.class_rep = class_rep
     return [Fn(6 if q else 7), para, para0, head, cell]
